@@ -937,3 +937,26 @@ def live_methods(ctx, cls):
     """Methods of a class that are analysed on their own (helpers absorbed
     by inlining are skipped)."""
     return [f for f in cls.live_methods() if not absorbed(ctx, f)]
+
+
+def exact_ms_to_s(expr):
+    """expr converts a ZooKeeper millisecond stamp (<meta>.ctime/.mtime/
+    .created) to seconds without truncation: <stamp> / 1000[.0] or
+    <stamp> * 0.001.  Returns the stamp's text or None."""
+    if not isinstance(expr, ast.BinOp):
+        return None
+    left, right = expr.left, expr.right
+    if isinstance(expr.op, ast.Div) and isinstance(right, ast.Constant) and \
+            right.value in (1000, 1000.0) and \
+            not isinstance(right.value, bool):
+        stamp = left
+    elif isinstance(expr.op, ast.Mult) and isinstance(right, ast.Constant) \
+            and right.value == 0.001:
+        stamp = left
+    else:
+        return None
+    if isinstance(stamp, ast.Attribute) and \
+            stamp.attr in ('ctime', 'mtime', 'created',
+                           'last_modified'):
+        return N.txt(stamp)
+    return None
